@@ -70,7 +70,7 @@ def compare(pred, row, flat):
 def base_of(row):
     """the part of a fault-free run that the two-run clause compares with"""
     end = row["end"]
-    return {"ran": bool(end["ran"] and not end["escaped"]), "aborted": any(e["k"] == "step" and e["outcome"] == "kbd" for e in row["events"]),
+    return {"ran": bool(end["ran"] and not end["escaped"]), "aborted": any(e["k"] == "step" and e["outcome"] in ("kbd", "abort") for e in row["events"]),
             "status": end["status"], "step_status": end["step_status"]}
 
 
@@ -309,12 +309,12 @@ def shared(chk, part="core"):
     """Run (or load) the shared stage for this tree / tier / seed.  Returns a dict:
        n_runs, tlc: [{module,cfg,distinct,generated,wall,coverage}], verdicts: {clause: [ {key, ...} ]},
        divergences, samples, design_violations"""
-    key = tree_key({"tier": chk.tier, "seed": chk.seed, "part": part, "v": 20})
+    key = tree_key({"tier": chk.tier, "seed": chk.seed, "part": part, "v": 21})
     os.makedirs(CACHE, exist_ok=True)
     # one entry per (part, tier, repository location): runs against a mutated copy must not evict /repo's entry
     prefix = "%s-%s-%s-" % (part, chk.tier, hashlib.sha256(REPO.encode()).hexdigest()[:8])
     path = os.path.join(CACHE, "%s%s.json.gz" % (prefix, key))
-    lock = open(os.path.join(CACHE, "%s-%s.lock" % (part, chk.tier)), "w")
+    lock = open(os.path.join(CACHE, "%slock" % prefix), "w")
     fcntl.flock(lock, fcntl.LOCK_EX)
     try:
         if os.path.exists(path) and not os.environ.get("VERIF_NOCACHE"):
@@ -383,7 +383,7 @@ def _compute(chk, part):
         case = info[k[0]][4]
         prows.append({"id": len(prows) + 1, "prog": case["prog"], "cfg": case["cfgs"][k[1] - 1], "skips": case["skips"], "hookcl": case["hookcl"], "events": d["events"],
                       "end": {"ran": True, "verdict": d["verdict"], "status": d["status"], "step_status": d["step_status"], "hook_failed": d["hook_failed"]},
-                      "base": {"ran": True, "aborted": any(e["k"] == "step" and e["outcome"] == "kbd" for e in b["events"]),
+                      "base": {"ran": True, "aborted": any(e["k"] == "step" and e["outcome"] in ("kbd", "abort") for e in b["events"]),
                                "status": b["status"], "step_status": b["step_status"]}, "_key": list(k)})
 
     class _Acc0(object):
